@@ -285,6 +285,68 @@ func runDescribe(rng *rand.Rand, dc describeCase, can *mon.Canary) {
 	}
 }
 
+// closedPort: the queried host is up but nothing listens on the port (the
+// kernel answers with ICMP port unreachable, the connected socket's read
+// fails): the call must still report "no result" once the timeout elapsed.
+func closedPort(timeout time.Duration, can *mon.Canary) {
+	nDescribe++
+	r.Eval(1)
+	sig := fmt.Sprintf("describe closed-port timeout=%v", timeout)
+	r.Crumb("C20 %s", sig)
+	attrs := map[string]string{"call": "describe", "scenario": "closed-port"}
+	tmp, err := net.ListenUDP("udp4", &net.UDPAddr{IP: net.IPv4(127, 0, 0, 1)})
+	if err != nil {
+		return
+	}
+	addr := tmp.LocalAddr().String()
+	tmp.Close()
+	fdBefore := fdCount()
+	t0 := time.Now()
+	var res *knxnet.DescriptionRes
+	var cerr error
+	var retAt time.Time
+	ret := make(chan struct{})
+	go func() {
+		res, cerr = knx.DescribeTunnel(addr, timeout)
+		retAt = time.Now()
+		close(ret)
+	}()
+	select {
+	case <-ret:
+	case <-time.After(20*timeout + 5*time.Second):
+		r.Violate("call.hang", attrs, map[string]interface{}{"scenario": sig}, "[%s] DescribeTunnel did not return", sig)
+		return
+	}
+	elapsed := retAt.Sub(t0)
+	if elapsed > timeout+15*time.Millisecond {
+		can.Settle()
+	}
+	stall := can.StallSince(t0)
+	cs := map[string]interface{}{"scenario": sig, "elapsed_ms": float64(elapsed) / 1e6, "error": fmt.Sprint(cerr)}
+	if res != nil || cerr != nil {
+		r.Violate("describe.result", attrs, cs, "[%s] DescribeTunnel returned (%v, %v); a server that does not answer yields no result and no error once the timeout elapsed", sig, res != nil, cerr)
+		return
+	}
+	if elapsed+100*time.Microsecond < timeout {
+		r.Violate("describe.early", attrs, cs, "[%s] DescribeTunnel gave up after %v, before the timeout %v", sig, elapsed, timeout)
+		return
+	}
+	if over := elapsed - timeout; over > 3*stall+25*time.Millisecond && stall < 250*time.Millisecond {
+		r.Violate("describe.late", attrs, cs, "[%s] DescribeTunnel returned %v after the timeout %v", sig, over, timeout)
+		return
+	}
+	fdAfter := fdCount()
+	for i := 0; i < 50 && fdAfter > fdBefore; i++ {
+		time.Sleep(time.Millisecond)
+		fdAfter = fdCount()
+	}
+	if fdAfter > fdBefore {
+		r.Violate("describe.socket-leak", attrs, cs, "[%s] the socket was not released", sig)
+		return
+	}
+	r.DistinctStr(sig)
+}
+
 func orNil(s string) string {
 	if s == "" {
 		return "nil"
@@ -616,6 +678,9 @@ func run(rr *mon.Run) {
 	can := mon.StartCanary()
 	for _, dc := range describeCases(rng, r.Pick(60, 1500)) {
 		runDescribe(rng, dc, can)
+	}
+	for i := 0; i < r.Pick(6, 120); i++ {
+		closedPort(time.Duration([]int{20, 80, 200}[i%3])*time.Millisecond, can)
 	}
 	dts := []time.Duration{5 * time.Millisecond, 30 * time.Millisecond, 80 * time.Millisecond, 150 * time.Millisecond, 300 * time.Millisecond}
 	for i := 0; i < r.Pick(25, 600) && multicastOK; i++ {
